@@ -520,10 +520,12 @@ class ExprBuilder(ast.NodeTransformer):
         Building an operand that contains control-flow or an assignment expression
         emits statements and BBs that run *before* the residual expressions of the
         operands to its left. That must not be observable: before such an operand is
-        built, every earlier operand whose residual still has to make a call (if the
-        new operand makes one too) or reads a variable that the new operand assigns is
-        evaluated into a temporary. For example, `g() + (h() if c() else k())` becomes
-        `%tmp0 = g()`, then the branching on `c()`, then `%tmp0 + %tmp1`.
+        built, every earlier operand whose residual still has to do something that may
+        have an effect (if the new operand does so too, see `may_have_effect`) or reads
+        a variable that the new operand assigns is evaluated into a temporary. For
+        example, `g() + (h() if c() else k())` becomes `%tmp0 = g()`, then the branching
+        on `c()`, then `%tmp0 + %tmp1`; likewise `xs[0] + (f(xs) if c else 0)` reads
+        `xs[0]` before `f` gets to mutate `xs`.
 
         `earlier` are operands that were built before. `last_is_stored` says that the
         caller is going to store the last operand in a temporary right after it is
@@ -534,13 +536,13 @@ class ExprBuilder(ast.NodeTransformer):
             child = _get_operand(container, key)
             stored = last_is_stored and i == len(operands) - 1
             if done and (stored or lifts_control_flow(child)):
-                calls = has_call(child)
+                effect = may_have_effect(child)
                 written = assigned_names(child)
                 for prev in done:
                     residual = _get_operand(*prev)
                     if isinstance(residual, ast.Starred):
                         continue
-                    if (calls and has_call(residual)) or any(
+                    if (effect and may_have_effect(residual)) or any(
                         x in written for x in read_names(residual)
                     ):
                         _set_operand(*prev, self.bind(residual))
@@ -886,6 +888,37 @@ def read_names(node: ast.AST) -> list[str]:
     return [
         n.id for n in name_nodes_in_ast(node) if not any(n is c for c in callees)
     ]
+
+
+def may_have_effect(node: ast.AST) -> bool:
+    """Conservatively checks if evaluating an expression could be observable other than
+    through its value, or could observe the effect of another expression.
+
+    Calls obviously can. So can everything else that is not a name, a constant, a
+    tuple or list display, `not`, or one of the control-flow expressions themselves:
+    operators and comparisons may be overloaded by user functions or panic (division by
+    zero), subscripts and attributes read state that a call may mutate (`xs[0]` and
+    `f(xs)`) and may panic as well.
+    """
+
+    def is_effect(n: ast.AST) -> bool:
+        match n:
+            case (
+                ast.Name()
+                | ast.Constant()
+                | ast.Tuple()
+                | ast.List()
+                | ast.Starred()
+                | ast.IfExp()
+                | ast.BoolOp()
+                | ast.NamedExpr()
+            ):
+                return False
+            case ast.UnaryOp(op=ast.Not()):
+                return False
+        return isinstance(n, ast.expr)
+
+    return has_call(node) or bool(find_nodes(is_effect, node))
 
 
 def is_functional_annotation(stmt: ast.stmt) -> bool:
